@@ -20,6 +20,9 @@ pub struct Case {
     pub script: [Fault; 3],
     pub infallible_panics: bool,
     pub seed: u64,
+    /// index into libapi::ERR_CODES
+    #[serde(default)]
+    pub err_code: u8,
 }
 
 fn entry_name(e: u8) -> &'static str {
@@ -38,6 +41,7 @@ pub fn check(c: &Case, st: &mut Stats) -> CheckResult {
     let p = libr.p();
     let data = gen::prg_bytes(c.seed, "c12-stream", 96);
     let mut rng = TestRng::with_faults(&data, c.script.to_vec(), c.infallible_panics);
+    rng.err_code = crate::libapi::ERR_CODES[c.err_code as usize % crate::libapi::ERR_CODES.len()];
     let name = entry_name(c.entry);
     let tag = format!("set{}:{name}", p.id);
     let m = b"rng fault".to_vec();
@@ -229,12 +233,15 @@ pub fn run(ctx: &Ctx, rep: &mut Report) {
     rep.assume("oracle on failure: if any request the library actually made was scripted to fail, the call must return Err without panicking; how many requests are made and of what size is recorded, not judged");
     rep.assume("OS-RNG freshness is judged by pairwise inequality of 8 results (collision probability 2^-256 with a working OS RNG)");
     // complete enumeration of the fault space
-    let n = (3 * ENTRIES * 216 * 2) as u64;
+    let ncodes = crate::libapi::ERR_CODES.len();
+    let n = (3 * ENTRIES * 216 * 2 * ncodes) as u64;
     let seed = ctx.seed;
     let case_of = |i: u64| -> Case {
-        let i = i as usize;
+        let err_code = (i as usize % ncodes) as u8;
+        let i = i as usize / ncodes;
         let s = i % 216;
         Case {
+            err_code,
             set: (i / (ENTRIES * 216 * 2)) as u8,
             entry: ((i / (216 * 2)) % ENTRIES) as u8,
             infallible_panics: (i / 216) % 2 == 1,
